@@ -34,6 +34,13 @@ EXPR_SLOTS = [
     ("slice-end-only", "x[:%s]"), ("slice-begin-only", "x[%s:]"), ("slice3-no-begin-cap", "x[:1:%s]"), ("slice3-no-begin-end", "x[:%s:2]"),
     ("slice-base-open", "(%s)[1:]"), ("slice-base-open2", "(%s)[:1]"), ("make-chan-size", "make(chan int64, %s)"), ("elseif-cond2", "if x { } else if y { } else if %s { }"),
     ("switch-default-only-expr", "switch x { default: %s }"), ("switch-subject-default-only", "switch %s { default: y }"),
+    # size arguments the grammar accepts for ANY made type (what the interpreter does with them is not the walker's business)
+    ("make-map-size", "make(map[string]int64, %s)"), ("make-chan-size2", "make(chan int64, 1, %s)"), ("make-chan-size1of2", "make(chan int64, %s, 2)"), ("make-scalar-size", "make(int64, %s)"),
+    ("make-scalar-size2", "make(int64, 1, %s)"), ("make-struct-size", "make(struct { A int64 }, %s)"), ("make-struct-size2", "make(struct { A int64 }, 1, %s)"), ("make-named-size", "make(T, %s)"),
+    ("make-named-size2", "make(T, 1, %s)"), ("make-ptr-size", "make(*int64, %s)"), ("make-slice2-len", "make([][]int64, %s, 4)"), ("make-module-type-size", "make(m.T, %s)"),
+    # compound assignments of every operator family, targets of every kind
+    ("opassign-mul-r", "x *= (%s)"), ("opassign-div-r", "x /= (%s)"), ("opassign-and-r", "x &= (%s)"), ("opassign-or-r", "x |= (%s)"), ("opassign-minus-r", "x -= (%s)"),
+    ("opassign-target-index", "x[%s] *= 2"), ("opassign-target-base", "(%s)[0] /= 2"), ("inc-target-index", "x[%s]++"), ("dec-target-index", "x[%s]--"), ("opassign-member-base", "(%s).k &= 1"),
     ("defer-arg2", "defer f(1, %s)"), ("go-arg2", "go f(1, %s)"), ("anon-call-arg2", "x.y(1, %s)"), ("delete-item-key", "delete(%s, 1)"), ("let-map-item-base", "v, ok = (%s)[1]"),
 ]
 
